@@ -47,6 +47,9 @@ def newNode (h : Heap) (d : Nat) (idx : Nat) (rest : Bytes) (parent : Option Id)
 /-- after a scalar or a closed container: `if current.parent != nil { current = current.parent }` -/
 def popCurrent (h : Heap) (cur : Id) : Id := ((h.get cur).parent).getD cur
 
+/-- `current != nil && current.IsObject()` -/
+def DState.curIsObject (s : DState) : Bool := match s.current with | some c => s.h.isObject c | none => false
+
 /-- result of one loop iteration: the new decoder state and the position of the LAST byte consumed (Go's
 `buf.index` before `buf.step()`), as remaining input starting at that byte -/
 abbrev StepRes := Except PErr (DState × Bytes × Nat)
@@ -155,7 +158,7 @@ def decodeStep (d : Nat) (s : DState) (b : UInt8) (bs : Bytes) (idx : Nat) : Ste
     else if st ≥ 0 then
       -- region Change State
       if st == Gen.sST then
-        if (match s.current with | some c => s.h.isObject c | none => false) && s.key.isNone then decodeKey s rest idx
+        if s.curIsObject && s.key.isNone then decodeKey s rest idx
         else decodeString d s rest idx
       else if st == Gen.sMI || st == Gen.sZE || st == Gen.sIN then decodeNumber d s st rest idx
       else if st == Gen.sT1 || st == Gen.sF1 || st == Gen.sN1 then decodeWord d s st rest idx
